@@ -88,7 +88,129 @@ func norm(v ssa.Value, depth int) lin {
 	if id, ok := lenOf(v); ok {
 		return lin{"len:" + id, 0, true}
 	}
+	if prm, ok := v.(*ssa.Parameter); ok {
+		if other := paramIsLenOf(prm); other != nil {
+			return lin{"len:" + valID(other), 0, true}
+		}
+	}
 	return lin{"v:" + valID(v), 0, true}
+}
+
+// boundsProg gives the call-site summaries below access to the whole program (set by Bounds).
+var boundsProg *core.Prog
+
+// callArgs: the arguments passed for parameter prm at every call site of its (unexported, never address-taken)
+// function; nil when the callers are not all known.
+func callArgs(prm *ssa.Parameter) (args []ssa.Value, sites []ssa.CallInstruction) {
+	f := prm.Parent()
+	if boundsProg == nil || f == nil || f.Parent() != nil {
+		return nil, nil
+	}
+	if o := f.Object(); o == nil || o.Exported() {
+		return nil, nil
+	}
+	k := -1
+	for i, q := range f.Params {
+		if q == prm {
+			k = i
+		}
+	}
+	known := true
+	for _, g := range boundsProg.Funcs {
+		core.EachInstr(g, func(i ssa.Instruction) {
+			for _, op := range i.Operands(nil) {
+				if op != nil && *op == ssa.Value(f) {
+					if c, isCall := i.(ssa.CallInstruction); !isCall || c.Common().Value != ssa.Value(f) {
+						known = false
+					}
+				}
+			}
+			if c, ok := i.(ssa.CallInstruction); ok && core.StaticCallee(c) == f && k >= 0 && k < len(c.Common().Args) {
+				args = append(args, c.Common().Args[k])
+				sites = append(sites, c)
+			}
+		})
+	}
+	if !known || len(args) == 0 {
+		return nil, nil
+	}
+	return args, sites
+}
+
+// paramIsLenOf: at every call site the argument for prm is the length (len / reflect.Value.Len) of the very
+// value passed for another parameter of the same function — the length travels with its container.
+func paramIsLenOf(prm *ssa.Parameter) *ssa.Parameter {
+	if b, ok := prm.Type().Underlying().(*types.Basic); !ok || b.Info()&types.IsInteger == 0 {
+		return nil
+	}
+	args, sites := callArgs(prm)
+	if args == nil {
+		return nil
+	}
+	f := prm.Parent()
+	for j, other := range f.Params {
+		if other == prm {
+			continue
+		}
+		all := true
+		for n, a := range args {
+			c, ok := a.(*ssa.Call)
+			if !ok {
+				all = false
+				break
+			}
+			isLen := false
+			if b, ok := c.Call.Value.(*ssa.Builtin); ok && b.Name() == "len" {
+				isLen = true
+			}
+			if g := core.StaticCallee(c); g != nil && core.QualName(g) == "reflect.Value.Len" {
+				isLen = true
+			}
+			if !isLen || j >= len(sites[n].Common().Args) || c.Call.Args[0] != sites[n].Common().Args[j] {
+				all = false
+				break
+			}
+		}
+		if all {
+			return other
+		}
+	}
+	return nil
+}
+
+// paramNonNeg: every call site passes a value that is a non-negative constant, a length, or a φ of those.
+func paramNonNeg(prm *ssa.Parameter) bool {
+	args, _ := callArgs(prm)
+	if args == nil {
+		return false
+	}
+	var nn func(v ssa.Value, d int) bool
+	nn = func(v ssa.Value, d int) bool {
+		if d > 5 {
+			return false
+		}
+		if k, ok := core.ConstInt(v); ok {
+			return k >= 0
+		}
+		if _, ok := lenOf(v); ok {
+			return true
+		}
+		if ph, ok := v.(*ssa.Phi); ok {
+			for _, e := range ph.Edges {
+				if !nn(e, d+1) {
+					return false
+				}
+			}
+			return true
+		}
+		return false
+	}
+	for _, a := range args {
+		if !nn(a, 0) {
+			return false
+		}
+	}
+	return true
 }
 
 type fact struct { // a.base + a.c  <  b.base + b.c   (strict) or <=
@@ -99,6 +221,11 @@ type fact struct { // a.base + a.c  <  b.base + b.c   (strict) or <=
 // factsAt collects relational facts known at block blk.
 func factsAt(blk *ssa.BasicBlock) []fact {
 	var out []fact
+	for _, prm := range blk.Parent().Params {
+		if b, ok := prm.Type().Underlying().(*types.Basic); ok && b.Info()&types.IsInteger != 0 && paramNonNeg(prm) {
+			out = append(out, fact{lin{"", 0, true}, norm(prm, 0), false})
+		}
+	}
 	for _, c := range core.CondsAt(blk) {
 		bo, ok := c.Value.(*ssa.BinOp)
 		if !ok {
@@ -346,6 +473,7 @@ func boundSites(f *ssa.Function) []boundSite {
 // Bounds checks every index/slice site of the functions in scope (nil scope = all).
 func Bounds(scope func(p *core.Prog) (map[*ssa.Function]bool, string)) Rule {
 	return func(p *core.Prog, r *core.Report) {
+		boundsProg = p
 		const rule = "D-BOUND"
 		var in map[*ssa.Function]bool
 		note := "all functions"
